@@ -28,6 +28,7 @@ func c18mont(v *big.Int) [4]uint64 {
 func TestVX_C18_SM2Tables(t *testing.T) {
 	r := vx.Begin("C18", "sm2-tables", "every entry of the four SM2 comb schemes (4-2-32, 5-3-17(+1), 6-3-14(+15), 7-3-12(+15)): entry (j, i) must be the Montgomery form (v*2^256 mod p, little-endian limbs) of the affine coordinates of sum_{b in bits(i+1)} 2^(rem + j*iter + b*sub*iter) G, remainder entry i = [i+1]G, recomputed in sm2ref; plus the curve parameter block of GetZBytes, the CurveParams, sm2B and sm2G. Finite space enumerated completely")
 	defer r.End()
+	defer vxSeamReport(r)
 	type sch struct {
 		name            string
 		first           [][][]*[4]uint64
